@@ -13,6 +13,7 @@ import RpmVerif.Driver.C17
 import RpmVerif.Driver.C03
 import RpmVerif.Driver.C12
 import RpmVerif.Driver.C14
+import RpmVerif.Driver.C08
 /-! Driver: one request per line in (`<op> <args…> => <impl observation>`), one answer per line
 out (`<model observation> | <spec verdict> | <branch label>`).
 Each property contributes `Driver/Cxx.lean` with `ops : List String` and
@@ -34,7 +35,8 @@ def handlers : List (List String × (String → List String → String → Strin
   (C17.ops, C17.handle),
   (C03.ops, C03.handle),
   (C12.ops, C12.handle),
-  (C14.ops, C14.handle)
+  (C14.ops, C14.handle),
+  (C08.ops, C08.handle)
 ]
 
 def dispatch (line : String) : String :=
